@@ -96,7 +96,11 @@ def make_batch(rng, lang, n_sent=None, licensed_only=False, awkward=0.2, with_fa
                     return Tree(node.cat, [next(it)], node.op_string, node.op_symbol)
                 return Tree(node.cat, [retoken(c) for c in node.children], node.op_string, node.op_symbol, node.head_is_left)
             trees.append(retoken(alt))
-        out.append([ScoredTree(tr, -1.5 - i) for i, tr in enumerate(trees)])
+        scores = [-1.5 - i for i in range(len(trees))]
+        if len(trees) > 1 and rng.random() < 0.3:
+            # a reranked / hand-assembled list: not in descending score order, ties
+            scores = [rng.choice([-0.5, -1.5, -1.5, -7.25]) for _ in trees]
+        out.append([ScoredTree(tr, sc) for tr, sc in zip(trees, scores)])
     return out
 
 
